@@ -66,6 +66,16 @@ def table_refs(tree):
     tree are not tables."""
     from vf.oracles.struct import walk
     ctes = cte_names(tree)
+    # inside its own (non-recursive) definition a CTE's name is not visible: `WITH t AS (SELECT * FROM t)` reads the table t
+    own = set()
+    for c in walk(tree):
+        if type(c).__name__ == 'CommonTableExpression':
+            nm = str(c.name.parts[-1])
+            for m in walk(c.query):
+                for f in TABLE_FIELDS.get(type(m).__name__, ()):
+                    v = getattr(m, f, None)
+                    if type(v).__name__ == 'Identifier' and len(v.parts) == 1 and str(v.parts[0]) == nm:
+                        own.add(id(v))
     out = []
     for n in walk(tree):
         cn = type(n).__name__
@@ -73,7 +83,7 @@ def table_refs(tree):
             v = getattr(n, f, None)
             if type(v).__name__ != 'Identifier':
                 continue
-            if len(v.parts) == 1 and str(v.parts[0]) in ctes:
+            if len(v.parts) == 1 and str(v.parts[0]) in ctes and id(v) not in own:
                 continue
             out.append((v, 'target' if (cn, f) in TARGET_FIELDS else 'read', f'{cn}.{f}'))
     return out
